@@ -83,4 +83,10 @@ example : clauseTurns [.start, .cycle 1, .tInput (.user 1) "a", .tCmd (.user 1) 
 example : clauseTurns [.start, .cycle 1, .tInput (.user 1) "a", .tCmd (.user 1) "a", .tInput (.user 2) "x", .tCmd (.user 2) "x",
     .cycle 2, .tInput (.user 1) "b", .tCmd (.user 1) "b"] = [] := by decide
 
+-- clause preload: the file after a failing one was skipped
+example : clausePreload { preloads := ["p1", "p2", "p3"] } [.tEpilog, .tPreload "p1", .tPreload "p2", .xErr "p2",
+    .meh false "boom p2", .start, .cycle 1, .exitLoop] ≠ [] := by decide
+example : clausePreload { preloads := ["p1", "p2", "p3"] } [.tEpilog, .tPreload "p1", .tPreload "p2", .xErr "p2",
+    .meh false "boom p2", .tPreload "p3", .start, .cycle 1, .exitLoop] = [] := by decide
+
 end NV.C09
